@@ -108,6 +108,20 @@ def binop(ex, st, op, a, b, node=None):
     if isinstance(a, VOpaque) or isinstance(b, VOpaque):
         # arithmetic / concatenation with an unknown value: an unknown value (a possible TypeError is not modelled)
         ex.used_stubs.add('operators applied to opaque values yield opaque values (no TypeError modelled)')
+        # unknown, but a FUNCTION of operator and operands where those are terms (string constant/opaque, opaque/opaque):
+        # 'image/' + fmt computed twice is the same value, and differs in name from 'image/' - fmt
+        def _term(v):
+            if isinstance(v, VOpaque):
+                return v.t
+            if isinstance(v, VStr):
+                return z3.Function('opaque_of_str', z3.StringSort(), ObjSort)(v.t)
+            if isinstance(v, VInt):
+                return z3.Function('opaque_of_int', z3.IntSort(), ObjSort)(v.t)
+            return None
+        ta, tb = _term(a), _term(b)
+        if ta is not None and tb is not None:
+            f = z3.Function('opaque_binop_' + type(op).__name__, ObjSort, ObjSort, ObjSort)
+            return [(st, VOpaque(f(ta, tb)))]
         return [(st, VOpaque(name='binop'))]
     if getattr(a, 'shape', None) == 'packed' and isinstance(op, ast.Add):
         from . import filemodel
